@@ -69,6 +69,33 @@ Theorem C11_amen_update_exact (ypre ypost xpre xpost : tt R) (Apre Apost : ttm R
 Proof. exact (amen_update_exact ypre ypost xpre xpost Apre Apost ck xk c l m L). Qed.
 End AmenLocal.
 
+(* ---- the two-site supercore of the DMRG products (Model/Local.v `supercore`: W1 x W2 of dmrg_matvec, tied exactly to the first supercore the routine
+   decomposes when its QR is stubbed by the identity factorisation).  It is the projection of the dense product A x on the two-site frame of the iterate;
+   hence a component of the product that this frame annihilates does not enter the supercore at all - the mechanism behind the recorded finding
+   (a guess that is exact on one index block is blind to the complementary block: the sweep can only see it through the random kick columns). ---- *)
+Section DmrgSupercore.
+Context {R : Type} {RO : RingOps R} {RL : RingLaws R}.
+Theorem C11_supercore_galerkin (ypre ypost xpre xpost : tt R) (Apre Apost : ttm R) (c1 c2 : core4 R) (x1 x2 : core3 R) ra rc l m1 m2 L :
+  length Apre = length ypre -> length xpre = length ypre -> length Apost = length ypost -> length xpost = length ypost ->
+  l < ra -> L < rc -> m1 < mm c1 -> m2 < mm c2 -> Core.nn x1 = nm c1 ->
+  wf (ypre ++ unit3 ra (mm c1) 1 l m1 0 :: unit3 1 (mm c2) rc 0 m2 L :: ypost) -> wf4 (Apre ++ c1 :: c2 :: Apost) -> wf (xpre ++ x1 :: x2 :: xpost) ->
+  supercore (phiF ypre Apre xpre ones3) c1 x1 c2 x2 (phiB ypost Apost xpost) l m1 m2 L
+  = sum_idx (shapeM (Apre ++ c1 :: c2 :: Apost)) (fun is_ => sum_idx (shapeN (Apre ++ c1 :: c2 :: Apost)) (fun js =>
+      rmul (rmul (rconj (entry (ypre ++ unit3 ra (mm c1) 1 l m1 0 :: unit3 1 (mm c2) rc 0 m2 L :: ypost) is_)) (entry4 (Apre ++ c1 :: c2 :: Apost) is_ js))
+           (entry (xpre ++ x1 :: x2 :: xpost) js))).
+Proof. exact (supercore_galerkin ypre ypost xpre xpost Apre Apost c1 c2 x1 x2 ra rc l m1 m2 L). Qed.
+Theorem C11_supercore_blind_component (ypre ypost xpre xpost : tt R) (Apre Apost : ttm R) (c1 c2 : core4 R) (x1 x2 : core3 R) ra rc l m1 m2 L (u v : list nat -> R) :
+  length Apre = length ypre -> length xpre = length ypre -> length Apost = length ypost -> length xpost = length ypost ->
+  l < ra -> L < rc -> m1 < mm c1 -> m2 < mm c2 -> Core.nn x1 = nm c1 ->
+  wf (ypre ++ unit3 ra (mm c1) 1 l m1 0 :: unit3 1 (mm c2) rc 0 m2 L :: ypost) -> wf4 (Apre ++ c1 :: c2 :: Apost) -> wf (xpre ++ x1 :: x2 :: xpost) ->
+  (forall is_, length is_ = length (shapeM (Apre ++ c1 :: c2 :: Apost)) -> Forall2 lt is_ (shapeM (Apre ++ c1 :: c2 :: Apost)) ->
+     sum_idx (shapeN (Apre ++ c1 :: c2 :: Apost)) (fun js => rmul (entry4 (Apre ++ c1 :: c2 :: Apost) is_ js) (entry (xpre ++ x1 :: x2 :: xpost) js)) = radd (u is_) (v is_)) ->
+  sum_idx (shapeM (Apre ++ c1 :: c2 :: Apost)) (fun is_ => rmul (rconj (entry (ypre ++ unit3 ra (mm c1) 1 l m1 0 :: unit3 1 (mm c2) rc 0 m2 L :: ypost) is_)) (v is_)) = rO ->
+  supercore (phiF ypre Apre xpre ones3) c1 x1 c2 x2 (phiB ypost Apost xpost) l m1 m2 L
+  = sum_idx (shapeM (Apre ++ c1 :: c2 :: Apost)) (fun is_ => rmul (rconj (entry (ypre ++ unit3 ra (mm c1) 1 l m1 0 :: unit3 1 (mm c2) rc 0 m2 L :: ypost) is_)) (u is_)).
+Proof. exact (supercore_blind_component ypre ypost xpre xpost Apre Apost c1 c2 x1 x2 ra rc l m1 m2 L u v). Qed.
+End DmrgSupercore.
+
 (* the hypotheses of C11_amen_update_exact are satisfiable: y = x = [Q; c] with Q the 1 x 2 x 2 core whose slices are the rows of the identity
    (a left-orthogonal core), c = [[3],[5]; [-2],[7]], A the identity operator *)
 Example C11_amen_update_exact_instance :
@@ -98,3 +125,5 @@ Print Assumptions C11_norm2_centre_core.
 Print Assumptions C11_centre_core_error.
 Print Assumptions C11_amen_local_update.
 Print Assumptions C11_amen_update_exact.
+Print Assumptions C11_supercore_galerkin.
+Print Assumptions C11_supercore_blind_component.
